@@ -118,6 +118,9 @@ def WR(v, i=0, pos=None, frame=None, pi_=3, fi=4):
     return Wrench(np.array(v.vec6(i)).reshape(6, 1), T(v, pi_) if pos is None else pos, T(v, fi) if frame is None else frame)
 
 
+OPERATOR_GROUPS = ("tm", "Screw", "Wrench")
+
+
 # ------------------------------------------------------------------------------------------------ table machinery
 class Entry:
     def __init__(self, name, group, fn, pals, mode="value", exempt=(), opaque=0, postops=None, fresh=None,
@@ -401,6 +404,10 @@ def run_history(e, pname, variant, site, seed):
             viols.append(("default_modified", {"diff": dr[:6]}))
     items, returned = result_items(res, vops)
     info["returns_operand"] = returned
+    if returned and site == "call" and e.mode == "value" and e.group in OPERATOR_GROUPS:
+        # operators, copies and get-accessors return VALUES: handing back the operand itself (e.g. `0 + s` answered with
+        # `s`) means that changing the result changes its source.  (Helpers such as closeLinearGap(p, p, d) may.)
+        viols.append(("result_is_operand", {"returned_operands": returned}))
     if e.mode in ("value", "fresh", "mut"):
         stop = None
         res_arrays = []
